@@ -78,20 +78,39 @@ def run(ctx):
             cb = cl[0]
             cmps = [(i, t) for i, t in cfg.calls(cb) if (cfg.callee_decl(t) or "").endswith("Ord::cmp")]
             revs = [i for i, t in cfg.calls(cb) if (cfg.callee(t) or "").endswith("Ordering::reverse")]
-            # every value flowing to the return place passes reverse()
-            okr = bool(revs) and bool(cmps)
-            if okr:
-                rets = cfg.return_blocks(cb)
-                okr = cfg.find_path(cb, [0], rets, avoid=revs) is None
+            rets = cfg.return_blocks(cb)
+            # effective direction of every comparison: `left.cmp(right)` reversed on all its paths, or `right.cmp(left)`
+            # reversed on none of them, is descending (closure parameters: _2 = left, _3 = right)
+            dirs = []
+            for i, t in cmps:
+                def side(op, depth=0):
+                    o = cfg.op_origin(cb, op)
+                    if o and o[0] not in (2, 3) and depth < 4:
+                        dc = cfg.def_call(cb, o[0])
+                        if dc and dc[1]["a"]:
+                            return side(dc[1]["a"][0], depth + 1)       # e.g. left.elements.len()
+                    return o
+                o0, o1 = side(t["a"][0]), side(t["a"][1])
+                if not (o0 and o1) or {o0[0], o1[0]} != {2, 3}:
+                    dirs.append("?")
+                    continue
+                asc = o0[0] == 2
+                always = cfg.find_path(cb, [i], rets, avoid=revs, leave_start=True) is None and bool(revs)
+                never = not revs or all(cfg.find_path(cb, [i], [r], leave_start=True) is None for r in revs)
+                if not (always or never):
+                    dirs.append("mixed")
+                else:
+                    dirs.append("desc" if asc == always else "asc")
+            okr = bool(cmps) and all(d == "desc" for d in dirs)
             # first comparison is on the cost field
             first_cost = False
             if cmps:
                 o = cfg.op_origin(cb, cmps[0][1]["a"][0])
                 first_cost = bool(o and o[1] and o[1][-1] == ".cost")
             ok = okr and first_cost
-            detail = ("comparator: cost.cmp(..) (then length) and every result is reversed => descending, cheapest last"
-                      if ok else "sort_paths comparator no longer sorts by cost descending (reverse on all paths: %s, "
-                      "primary key cost: %s)" % (okr, first_cost))
+            detail = ("comparator: cost (then length), every comparison effectively descending => cheapest last"
+                      if ok else "sort_paths comparator no longer sorts by cost descending (directions of the comparisons: %s, "
+                      "primary key cost: %s)" % (dirs, first_cost))
         ctx.ob("R17c", "sort_paths:descending-by-cost", ok, detail, b.where)
     b = ctx.anchor("R17c", PS + "process_last_path")
     if b:
